@@ -146,12 +146,27 @@ async fn run(cases: &str, out: &str, workdir: &str, args: &[String]) {
     let rows = args.iter().any(|a| a == "rows");
     let evict = args.iter().any(|a| a == "evict");
     let gate = args.iter().any(|a| a == "gate");
-    let cfgp = crate::util::write_config(workdir, "engine.toml", "tick_interval_secs = 100000\nkeep_processes = true\nmax_message_retry_times = 3\n");
+    let sqlite = args.iter().any(|a| a == "sqlite");
+    let restart = args.iter().any(|a| a == "restart");
+    let mut cfg = "tick_interval_secs = 100000\nkeep_processes = true\nmax_message_retry_times = 3\n".to_string();
+    if sqlite {
+        let db = std::path::Path::new(workdir).join("engine.db");
+        let _ = std::fs::remove_file(&db);
+        cfg += &format!("[sqlite]\ndatabase_url = \"sqlite://{}\"\n", db.display());
+    }
+    let cfgp = crate::util::write_config(workdir, "engine.toml", &cfg);
+    let build = |cfgp: std::path::PathBuf| async move {
+        let mut b = EngineBuilder::new().set_config_source(&cfgp);
+        if sqlite {
+            b = b.add_plugin(&acts_store_sqlite::SqliteStore);
+        }
+        b.build().await.unwrap().start()
+    };
     acts::verif::manual_tick(true);
     acts::verif::log_enable(true);
     acts::verif::clock_enable(1000);
-    let engine = EngineBuilder::new().set_config_source(&cfgp).build().await.unwrap().start();
-    let ex = engine.executor();
+    let mut engine = build(cfgp.clone()).await;
+    let mut ex = engine.executor();
     let f = std::fs::File::open(cases).unwrap();
     let mut w = std::io::BufWriter::new(std::fs::File::create(out).unwrap());
     for line in std::io::BufReader::new(f).lines() {
@@ -194,8 +209,19 @@ async fn run(cases: &str, out: &str, workdir: &str, args: &[String]) {
         let mut point = 0;
         for op in v["ops"].as_array().unwrap() {
             point += 1;
+            if restart {
+                // stop the engine at this quiescent point and start a new one on the same store
+                engine.close();
+                quiesce().await;
+                engine = build(cfgp.clone()).await;
+                ex = engine.executor();
+                quiesce().await;
+                canon.flush(&mut w, &cid, &pid, &mid);
+            }
             if evict {
+                // drop the process from the cache and load it again from the store
                 engine.verif_evict(&pid);
+                let _ = ex.proc().get_process(&pid);
             }
             if let Some(adv) = op.get("tick") {
                 acts::verif::clock_advance(adv.as_i64().unwrap());
@@ -236,6 +262,24 @@ async fn run(cases: &str, out: &str, workdir: &str, args: &[String]) {
                     let hook = serde_json::from_str::<Value>(&t.5).ok().and_then(|d| d.get("$is_event_processed").cloned()) == Some(Value::Bool(true));
                     writeln!(w, "case {cid}: D {i} {} {}{}", t.3, canon_str(&t.5), if hook { " hook" } else { "" }).unwrap();
                 }
+            }
+        } else if evict || restart {
+            // not cached (evicted and not needed since): the final picture is what the store holds
+            use acts::query::{Cond, Expr, Query};
+            let store = engine.verif_store();
+            let q = Query::new().push(Cond::and().push(Expr::eq("pid", pid.to_string())));
+            let mut lines: Vec<(usize, String)> = Vec::new();
+            if let Ok(rows) = store.tasks().query(&q) {
+                for r in rows.rows {
+                    if let Some(i) = canon.idx.get(&r.tid) {
+                        let hook = serde_json::from_str::<Value>(&r.data).ok().and_then(|d| d.get("$is_event_processed").cloned()) == Some(Value::Bool(true));
+                        lines.push((*i, format!("case {cid}: D {i} {} {}{}", r.state, canon_str(&r.data), if hook { " hook" } else { "" })));
+                    }
+                }
+            }
+            lines.sort();
+            for (_, l) in lines {
+                writeln!(w, "{l}").unwrap();
             }
         } else {
             writeln!(w, "case {cid}: GONE").unwrap();
